@@ -2023,10 +2023,17 @@ class UserActions(object):
     for rec in col_filters:
       if not rec.filter:
         continue
-      col_filter = json.loads(rec.filter)
+      try:
+        col_filter = json.loads(rec.filter)
+      except ValueError:
+        continue
+      if not isinstance(col_filter, dict):
+        continue
+      # Only lists of values ("included" / "excluded") hold choices; e.g. range filters
+      # ({"min": ..., "max": ...}) have nothing to rename.
       new_filter = {
-        include_exclude: [rename(value) for value in values]
-        for include_exclude, values in col_filter.items()
+        key: [rename(value) for value in values] if isinstance(values, list) else values
+        for key, values in col_filter.items()
       }
       if col_filter != new_filter:
         row_ids.append(rec.id)
